@@ -122,6 +122,10 @@ type config struct {
 	BaseQRs     []string            `json:"quick_replies"`
 	BaseArgs    []string            `json:"case_arguments"`
 	BaseAudio   string              `json:"say_audio_url"` // say_msg's base audio URL ("" = none)
+	// every non-empty text of the send_msg/send_broadcast action (base and translations) is replaced by an expression
+	// that evaluates to "": the created message is text-less although its definition has a text
+	EvalEmpty bool     `json:"text_evaluates_to_empty"`
+	BaseVars  []string `json:"template_variables"`
 	Tr          map[string][][]string `json:"translations"` // prop -> per language index 2,3 and 1 (= the base language itself: a stale entry) -> stored (nil absent)
 	States      map[string][3]int   `json:"states"`
 }
@@ -154,6 +158,13 @@ const (
 	voiceNodeUUID = "22222222-2222-4222-8222-222222222228"
 	exitVoiceUUID = "66666666-6666-4666-8666-666666666667"
 	basePlayURL = "http://x.io/play.mp3"
+	tplFlowUUID = "11111111-1111-4111-8111-111111111114"
+	tplNodeUUID = "22222222-2222-4222-8222-222222222227"
+	exitTplUUID = "66666666-6666-4666-8666-666666666666"
+	tplSendUUID = "33333333-3333-4333-8333-33333333333a"
+	templateUUID = "88888888-8888-4888-8888-888888888881"
+	channelUUID = "99999999-9999-4999-8999-999999999992"
+	emptyExpr   = "@fields.caption" // a field the contact has no value for: evaluates to "" without an error
 )
 
 // name = key of config.Tr/States; item, prop = where the translation is stored in the localization; voice = the item
@@ -166,6 +177,7 @@ var props = []struct {
 	{"arguments", caseUUID, "arguments", false}, {"name", catBobUUID, "name", false}, {"category", setresUUID, "category", false},
 	{"subject", emailUUID, "subject", false}, {"body", emailUUID, "body", false},
 	{"say_text", sayUUID, "text", true}, {"say_audio", sayUUID, "audio_url", true}, {"play_audio", playUUID, "audio_url", true},
+	{"template_variables", tplSendUUID, "template_variables", true},
 }
 
 // single-text properties (read with GetText)
